@@ -224,7 +224,7 @@ def build(pym, cfg):
                 akw["active_set"] = pym.AggActiveSet(lower_rel=0.1, upper_amt=0.95) if cfg["aggpar"] > 0 else \
                     pym.AggActiveSet(upper_rel=0.9, lower_amt=0.05)
             vms = sig("vms")
-            mods.append(H["Scale"](vm, vms, a=1.0, b=0.5))
+            mods.append(H["Scale"](vm, vms, a=0.02, b=0.5))     # keeps rho*x far from the overflow range of exp()
             if cfg["agg"] == "PNorm":
                 mods.append(pym.PNorm(vms, g, p=cfg["aggpar"], **akw))
             elif cfg["agg"] == "KSFunction":
